@@ -26,7 +26,8 @@ var (
 	sqlHook func(op, query string)
 	// sqlFail may make a call fail: a non-nil error is returned to database/sql instead of executing the statement;
 	// for op "commit" the transaction is rolled back and the error returned (a COMMIT that fails, e.g. SQLITE_BUSY /
-	// SQLITE_FULL); for op "query" the read fails before it starts.
+	// SQLITE_FULL); for op "exec" a write statement fails inside its (still open) transaction; for op "query" the
+	// read fails before it starts.
 	sqlFail func(op, query string) error
 	// sqlQueryHook is called before every read statement reaches SQLite (no statement of the calling connection is
 	// active at that moment): the place where "something else happens between two reads of one request".
@@ -91,6 +92,23 @@ func simKillAll() {
 
 type simSQLConn struct{ driver.Conn }
 
+// failedWrite runs a write statement and undoes it (savepoint, statement, rollback to the savepoint): what is left is
+// what a statement leaves that failed half-way - no change, and the connection's transaction, if one is open, holding
+// the write lock.
+func (c *simSQLConn) failedWrite(ctx context.Context, stmt func()) {
+	ex := c.Conn.(driver.ExecerContext)
+	if _, err := ex.ExecContext(ctx, "SAVEPOINT sim_failed_write", nil); err != nil {
+		return
+	}
+	stmt()
+	_, _ = ex.ExecContext(ctx, "ROLLBACK TO sim_failed_write", nil)
+	_, _ = ex.ExecContext(ctx, "RELEASE sim_failed_write", nil)
+}
+
+// simBusyTimeoutMS, when > 0, shortens SQLite's wait for a lock held by another connection (5 s of real time by
+// default in the production DSN): the answer - SQLITE_BUSY - is the same, it only comes sooner.
+var simBusyTimeoutMS int
+
 func hookSQL(op, q string) {
 	if sqlHook != nil {
 		sqlHook(op, q)
@@ -104,6 +122,14 @@ func isWrite(q string) bool {
 
 func (c *simSQLConn) ExecContext(ctx context.Context, query string, args []driver.NamedValue) (driver.Result, error) {
 	if isWrite(query) {
+		if sqlFail != nil {
+			if err := sqlFail("exec", query); err != nil {
+				// a write statement that fails half-way (SQLITE_IOERR / SQLITE_FULL): SQLite undoes the statement, the
+				// caller's transaction stays open and KEEPS the write lock the statement took
+				c.failedWrite(ctx, func() { _, _ = c.Conn.(driver.ExecerContext).ExecContext(ctx, query, args) })
+				return nil, err
+			}
+		}
 		hookSQL("exec", query)
 	}
 	return c.Conn.(driver.ExecerContext).ExecContext(ctx, query, args)
@@ -127,7 +153,7 @@ func (c *simSQLConn) PrepareContext(ctx context.Context, query string) (driver.S
 	if err != nil {
 		return nil, err
 	}
-	return &simSQLStmt{Stmt: st, q: query}, nil
+	return &simSQLStmt{Stmt: st, q: query, c: c}, nil
 }
 
 func (c *simSQLConn) BeginTx(ctx context.Context, opts driver.TxOptions) (driver.Tx, error) {
@@ -163,10 +189,19 @@ func (c *simSQLConn) IsValid() bool {
 type simSQLStmt struct {
 	driver.Stmt
 	q string
+	c *simSQLConn
 }
 
 func (s *simSQLStmt) ExecContext(ctx context.Context, args []driver.NamedValue) (driver.Result, error) {
 	if isWrite(s.q) {
+		if sqlFail != nil {
+			if err := sqlFail("exec", s.q); err != nil {
+				if s.c != nil {
+					s.c.failedWrite(ctx, func() { _, _ = s.Stmt.(driver.StmtExecContext).ExecContext(ctx, args) })
+				}
+				return nil, err
+			}
+		}
 		hookSQL("exec", s.q)
 	}
 	return s.Stmt.(driver.StmtExecContext).ExecContext(ctx, args)
@@ -205,7 +240,11 @@ func (t *simSQLTx) Commit() error {
 // openSim opens the database file with the wrapper driver, with the DSN the production adapter uses.
 func openSim(path string) *sqlx.DB {
 	registerSimDriver.Do(func() { sql.Register(simDriverName, &simDriver{base: &sqlite3.SQLiteDriver{}}) })
-	db, err := sqlx.Open(simDriverName, fmt.Sprintf("file:%s?_foreign_keys=true&pooling=true", path))
+	dsn := fmt.Sprintf("file:%s?_foreign_keys=true&pooling=true", path)
+	if simBusyTimeoutMS > 0 {
+		dsn += fmt.Sprintf("&_busy_timeout=%d", simBusyTimeoutMS)
+	}
+	db, err := sqlx.Open(simDriverName, dsn)
 	if err != nil {
 		Infra("open %s: %v", simDriverName, err)
 	}
